@@ -64,6 +64,10 @@ def histories(labels, tier):
         for perm in itertools.permutations(singles, 3):
             for again in singles:
                 out.append(tuple(perm) + (again,))
+    if n >= 2 and isinstance(labels[0], str):
+        g = ('<generator>',) + tuple(labels[:2])
+        gr = ('<generator>',) + tuple(reversed(labels))
+        out += [(g,), (gr,), (singles[0], g), (g, singles[-1]), (gr, g)]
     seen = set()
     uniq = []
     for h in out:
@@ -84,6 +88,9 @@ def label(x):
 def key_value(k):
     if len(k) == 1:
         return label(k[0])
+    if k[0] == '<generator>':
+        # a group of types handed over as a one-shot iterable (generator expression, filter(), map(), reversed())
+        return Seq([label(x) for x in k[1:]], 'generator')
     return Seq([label(x) for x in k], 'list')
 
 
@@ -106,7 +113,8 @@ class Run(object):
             raise AnalysisError('%s.__setitem__ vanished' % self.cls.name)
         self.ip.call(m, [key_value(key), Num(sym)], {})
         for l in key:
-            self.value[l] = sym
+            if l != '<generator>':
+                self.value[l] = sym
 
     # -- observation ------------------------------------------------------------------------------------------------
     def table_cells(self, attr):
@@ -163,7 +171,11 @@ def show(t):
 
 
 def hist_name(h):
-    return ' ; '.join('[%s]=v%d' % (','.join(map(repr, k)) if len(k) > 1 else repr(k[0]), i + 1) for i, k in enumerate(h)) or '(nothing assigned)'
+    def kn(k):
+        if k[0] == '<generator>':
+            return '(t for t in %s)' % (list(k[1:]),)
+        return ','.join(map(repr, k)) if len(k) > 1 else repr(k[0])
+    return ' ; '.join('[%s]=v%d' % (kn(k), i + 1) for i, k in enumerate(h)) or '(nothing assigned)'
 
 
 def _density_after(prog, labels, h):
